@@ -508,3 +508,151 @@ Definition observe (K : consts) (ops : list op) : list N :=
 Record case := { c_consts : consts; c_ops : list op; c_expect : list N }.
 Definition check_case (c : case) : bool := lN_eqb (observe (c_consts c) (c_ops c)) (c_expect c).
 Definition model_obs (c : case) : list N := observe (c_consts c) (c_ops c).
+
+(* ====================================================================================================== *)
+(* ---------- concurrent schedule / auto calls ----------
+   No lock is held across a call: every read (plan, in-flight scan, replay snapshot, base look-up) and every append
+   (one frame under the seq mutex) is a separate atomic step of the calling actor; the system interleaves them. *)
+Record call := { c_sched : bool;               (* true: compaction_auto_schedule_v1, false: compaction_auto_v1 *)
+                 c_stride : N; c_maxnew : N;   (* resolved: stride <> 0, max_new clamped *)
+                 c_block : bool; c_exec : bool }.
+
+(* the read half of run_cut: the summary to write for planned cut p, or the error that fails the job *)
+Definition cut_read (K : consts) (snap : list ev) (s : st) (p : plan) : res summ :=
+  let ms := msg_full snap in
+  let '(b, base_to) := select_base K (log s) snap (pl_seq p) in
+  let base_id := option_map ck_art b in
+  let '(bootstrap, note, used) :=
+    match base_id with
+    | None => (true, 0, false)
+    | Some a => match art_read s a with
+                | Some v => if su_kind v =? 1 then (true, 1, false) else (false, 0, true)
+                | None => (true, 2, false) end
+    end in
+  let start_idx := upper_bound ms (if bootstrap then 0 else base_to) in
+  let end_idx := upper_bound ms (pl_seq p) in
+  match nth_error ms (end_idx - 1) with
+  | None => Err 20
+  | Some (ls, lid, _) =>
+    if (ls =? pl_seq p) && (lid =? pl_mid p) then
+      Ok {| su_to_seq := pl_seq p; su_to_mid := Some (pl_mid p); su_base := base_id;
+            su_note := note; su_kind := 2; su_slice := map snd (skipn start_idx (firstn end_idx ms));
+            su_base_used := used; su_present := true |}
+    else Err 21
+  end.
+
+Inductive astate :=
+| AStart (c : call)                                             (* schedule: plan *)
+| ACheck (c : call) (plan1 : list plan) (count : N)             (* schedule: in-flight scan *)
+| ASkip (c : call) (plan1 : list plan) (count : N)              (* append decided(skipped_inflight) *)
+| APlan (c : call) (plan1 : list plan) (count : N)              (* spawn_job: plan (again) *)
+| ASpawn (c : call) (plan1 plan2 : list plan) (count : N)       (* append job_spawned *)
+| ADecide (c : call) (plan1 : list plan) (count j : N)          (* append decided(scheduled) *)
+| ASnap (c : call) (todo : list plan) (j : N)                   (* run_spawned_job: replay *)
+| ACut (c : call) (j : N) (snap : list ev) (todo : list plan) (made : list created)   (* read half of the next cut *)
+| AWrite (c : call) (j : N) (snap : list ev) (p : plan) (v : summ) (todo : list plan) (made : list created)  (* append checkpoint *)
+| AEnd (c : call) (j status : N) (made : list created) (err : option N)   (* append job_ended *)
+| ADone (resp : list N).
+
+Definition enc_call_resp (decision : N) (job : option N) (made : list created) (err : option N) : list N :=
+  [decision] ++ enc_opt job ++ enc_createds made ++ enc_opt err.
+
+Definition decided_body (c : call) (d : N) (j : option N) (plan1 : list plan) (count : N) : body :=
+  BDecided d j plan1 (c_stride c) (c_maxnew c) (c_block c) (c_exec c) count.
+
+(* one atomic step of one actor; response codes: schedule 0 noop 2 skipped 3 scheduled 4 completed 5 failed,
+   auto 10 noop 12 completed 13 failed *)
+Definition astep (K : consts) (s : st) (a : astate) : st * astate :=
+  match a with
+  | AStart c =>
+    let count := nlen (msgs (log s)) in
+    if c_sched c then
+      let plan1 := plan_cuts K (c_stride c) (c_maxnew c) (log s) in
+      match plan1 with
+      | [] => (s, ADone (enc_call_resp 0 None [] None))
+      | _ => (s, ACheck c plan1 count)
+      end
+    else (s, APlan c [] count)
+  | ACheck c plan1 count =>
+    match (if c_block c then find_inflight K (log s) else None) with
+    | Some _ => (s, ASkip c plan1 count)
+    | None => (s, APlan c plan1 count)
+    end
+  | ASkip c plan1 count =>
+    (append s (decided_body c 2 None plan1 count), ADone (enc_call_resp 2 None [] None))
+  | APlan c plan1 count =>
+    let plan2 := plan_cuts K (c_stride c) (c_maxnew c) (log s) in
+    match plan2 with
+    | [] => (s, ADone (enc_call_resp (if c_sched c then 0 else 10) None [] None))
+    | _ => (s, ASpawn c plan1 plan2 count)
+    end
+  | ASpawn c plan1 plan2 count =>
+    let j := fresh_job (log s) in
+    let s1 := append s (BJobSpawned j plan2 (c_stride c)) in
+    if c_sched c then (s1, ADecide c plan1 count j) else (s1, ASnap c plan2 j)
+  | ADecide c plan1 count j =>
+    let s1 := append s (decided_body c 3 (Some j) plan1 count) in
+    if c_exec c then (s1, ASnap c plan1 j) else (s1, ADone (enc_call_resp 3 (Some j) [] None))
+  | ASnap c todo j => (s, ACut c j (log s) (plan_sort todo) [])
+  | ACut c j snap todo made =>
+    match todo with
+    | [] => (s, AEnd c j 0 made None)
+    | p :: rest => match cut_read K snap s p with
+                   | Ok v => (s, AWrite c j snap p v rest made)
+                   | Err e => (s, AEnd c j 1 made (Some e))
+                   end
+    end
+  | AWrite c j snap p v rest made =>
+    let '(s1, a) := put_art s v in
+    let s2 := append s1 (BCkpt (rule_stride (c_stride c)) a (pl_seq p) (Some (pl_mid p))) in
+    (s2, ACut c j snap rest (made ++ [{| cr_ck := last_id s2; cr_art := a; cr_seq := pl_seq p; cr_mid := pl_mid p |}]))
+  | AEnd c j status made err =>
+    (append s (BJobEnded j status made),
+     ADone (enc_call_resp (match err with None => 4 | Some _ => 5 end + (if c_sched c then 0 else 8)) (Some j)
+                          (match err with None => made | Some _ => [] end) err))
+  | ADone r => (s, ADone r)
+  end.
+
+Definition is_append (a : astate) : bool :=
+  match a with ASkip _ _ _ | ASpawn _ _ _ _ | ADecide _ _ _ _ | AWrite _ _ _ _ _ _ _ | AEnd _ _ _ _ _ => true | _ => false end.
+Definition is_done (a : astate) : bool := match a with ADone _ => true | _ => false end.
+
+(* read steps up to the next append (what an actor does between two parks at the seq mutex) *)
+Fixpoint reads (K : consts) (fuel : nat) (s : st) (a : astate) : st * astate :=
+  match fuel with
+  | O => (s, a)
+  | S f => if is_append a || is_done a then (s, a) else let '(s', a') := astep K s a in reads K f s' a'
+  end.
+(* one scheduling quantum: the pending append (if any), then the reads that follow it *)
+Definition quantum (K : consts) (s : st) (a : astate) : st * astate :=
+  if is_append a then let '(s', a') := astep K s a in reads K 8 s' a' else reads K 8 s a.
+
+Fixpoint set_nth {A} (n : nat) (x : A) (l : list A) : list A :=
+  match l, n with
+  | [], _ => []
+  | _ :: r, O => x :: r
+  | y :: r, S n' => y :: set_nth n' x r
+  end.
+
+Fixpoint run_sched (K : consts) (s : st) (actors : list astate) (schedule : list N) : st * list astate :=
+  match schedule with
+  | [] => (s, actors)
+  | i :: rest => match nth_error actors (N.to_nat i) with
+                 | None => run_sched K s actors rest
+                 | Some a => let '(s', a') := quantum K s a in run_sched K s' (set_nth (N.to_nat i) a' actors) rest
+                 end
+  end.
+
+Definition enc_actor (a : astate) : list N := match a with ADone r => 1 :: r | _ => [0] end.
+
+(* a concurrent case: sequential prefix, then the calls driven by a schedule of quanta *)
+Definition observe_conc (K : consts) (prefix : list op) (calls : list call) (schedule : list N) : list N :=
+  let '(s0, _) := run_ops K st0 prefix [] in
+  let '(s, actors) := run_sched K s0 (map AStart calls) schedule in
+  concat (map enc_actor actors)
+  ++ nlen (log s) :: concat (map enc_ev (log s)) ++ nlen (arts s) :: concat (map enc_summ (arts s)).
+
+Record ccase := { cc_consts : consts; cc_prefix : list op; cc_calls : list call; cc_schedule : list N; cc_expect : list N }.
+Definition check_ccase (c : ccase) : bool :=
+  lN_eqb (observe_conc (cc_consts c) (cc_prefix c) (cc_calls c) (cc_schedule c)) (cc_expect c).
+Definition model_cobs (c : ccase) : list N := observe_conc (cc_consts c) (cc_prefix c) (cc_calls c) (cc_schedule c).
